@@ -50,7 +50,7 @@ PROBES = ["identity_sampler", "counting_sampler", "recording_builtin", "builtin_
 
 SCORE_NAMED = ["tpr", "fnr", "tnr", "fpr", "topr", "tonr", "tar", "frr", "far", "trr", "acceptance_rate", "rejection_rate"]
 THR_AT = ["threshold_at_fpr", "threshold_at_fnr", "threshold_at_tpr", "threshold_at_tnr"]
-CALLABLES = ["mean_pos", "sizes", "fnr_fpr_mat", "py_float", "int_count", "spread", "spread_or_zero", "max_mult4", "inv_spread"]
+CALLABLES = ["mean_pos", "sizes", "fnr_fpr_mat", "py_float", "int_count", "spread", "spread_or_zero", "max_mult4", "inv_spread", "tuple_rates", "list_rates"]
 GROUP_CALLABLES = ["groupwise_fnr", "group_sizes"]
 
 
@@ -170,7 +170,11 @@ def generate(rnd, tier):
             ops.append({"op": "reseed", "seed": rnd.randrange(2**31)})
             continue
         metric = gen_metric(rnd, is_group)
-        if obj.get("subclass") and rnd.random() < 0.5:
+        if obj.get("subclass") and rnd.random() < 0.3:
+            metric = {"name": "tnr", "kwargs": {"threshold": c12.gen_thr(rnd) if rnd.random() < 0.7 else {"shape": [], "data": [0.0]}}}
+            if metric["kwargs"]["threshold"]["shape"] == [0]:
+                metric["kwargs"]["threshold"] = {"shape": [2], "data": [0.0, 1.0]}
+        elif obj.get("subclass") and rnd.random() < 0.5:
             metric = {"name": "extra_metric", "kwargs": {"threshold": c12.gen_thr(rnd) if rnd.random() < 0.7 else {"shape": [], "data": [0.0]}}}
             if metric["kwargs"]["threshold"]["shape"] == [0]:
                 metric["kwargs"]["threshold"] = {"shape": [2], "data": [0.0, 1.0]}
@@ -252,6 +256,11 @@ def base_metric(name, L):
         # a guard returning a Python int in the degenerate case: the return *type* depends on the sample (never on the
         # source alone: resamples of a constant class are constant)
         return lambda s, **kw: 0 if len(s.pos) == 0 or s.pos[0] == s.pos[-1] else float(s.pos[-1] - s.pos[0]) / 3.0
+    if name == "tuple_rates":
+        # a tuple of arrays: the metric's own shape is (2,) + threshold shape
+        return lambda s, threshold=0.0, **kw: (np.asarray(s.fnr(threshold), dtype=float), np.asarray(s.fpr(threshold), dtype=float))
+    if name == "list_rates":
+        return lambda s, threshold=0.0, **kw: [np.asarray(s.tpr(threshold), dtype=float), np.asarray(s.tnr(threshold), dtype=float), np.asarray(s.fpr(threshold), dtype=float)]
     if name == "inv_spread":
         # infinite on resamples whose positives are all equal (never NaN): +-inf replicates are ordinary values for the
         # order statistics and for the count that defines p0
@@ -377,7 +386,9 @@ def dec_kwargs(kw):
 
 
 def my_eval(name, sample, kwargs, owner=None):
-    if name == "extra_metric":  # defined on the source's (user) class only; resamples are plain library objects
+    # metric names are resolved on the class of the object that is bootstrapped (a user subclass may add a metric or
+    # override one); resamples are plain library objects
+    if owner is not None and hasattr(owner, name):
         return getattr(owner, name)(sample, **kwargs)
     return getattr(type(sample), name)(sample, **kwargs)
 
@@ -414,6 +425,9 @@ def execute(scn, ctx):
         class UserScores(base_cls):
             def extra_metric(self, threshold):
                 return 2.0 * np.asarray(base_cls.fnr(self, threshold), dtype=float) + 0.125
+
+            def tnr(self, threshold):  # an override of a metric the library defines itself (a smoothed rate, say)
+                return 0.5 * np.asarray(base_cls.tnr(self, threshold), dtype=float) + 0.25
 
         src.__class__ = UserScores
     viol, trace, sig = [], [], []
